@@ -211,6 +211,23 @@ def run(seed=0, rounds=400):
             zs = xs[:i] + [s0, numpy.eye(2, dtype=int)] + xs[i + 2:]
             zs[i + 1] = rng.randint(-2, 3, size=(2, 2))
             check('monoid-fold-splice', (fold(zs, 0, n) == fold(xs, 0, i) @ (zs[i] @ zs[i + 1]) @ fold(xs, i + 2, n)).all(), i)
+    # str axioms used by the C19 substring contracts (contracts/c19_text.py)
+    alphabet = 'a +-/^_()[]{}<>09.zA\u0663'
+    for _ in range(rounds):
+        n = rng.randint(0, 8)
+        t = ''.join(alphabet[i] for i in rng.randint(0, len(alphabet), size=n))
+        for p in (' + ', ' - ', ' / ', '^', '_', ' ', '-', ')'):
+            check('str.startswith', t.startswith(p) == (len(t) >= len(p) and all(t[k] == p[k] for k in range(len(p)))), t, p)
+            check('str.endswith', t.endswith(p) == (len(t) >= len(p) and all(t[len(t) - len(p) + k] == p[k] for k in range(len(p)))), t, p)
+        c = len(t) - len(t.lstrip(' '))
+        check('str.lstrip', 0 <= c <= n and all(t[k] == ' ' for k in range(c)) and (c == n or t[c] != ' ') and t.lstrip(' ') == t[c:], t)
+        sl = slice(int(rng.randint(-9, 10)), int(rng.randint(-9, 10)))
+        st, sp, _ = sl.indices(n)
+        check('str-slice', t[sl] == ''.join(t[i] for i in range(st, max(st, sp))), t, (sl.start, sl.stop))
+        for ch in t:
+            check('char-order-is-code-point-order', ('0' <= ch <= '9') == (48 <= ord(ch) <= 57) and ('a' <= ch <= 'z') == (97 <= ord(ch) <= 122), ch)
+            if '0' <= ch <= '9':
+                check('int-of-ascii-digit', int(ch) == ord(ch) - 48, ch)
     print('AXIOMS ' + json.dumps(dict(rounds=rounds, failures=fails[:5])))
     ok_sets = run_sets(seed)
     ok_ev = evaluable_nodes(seed)
